@@ -320,6 +320,7 @@ class Executor(object):
         self._print_execution_plan = print_execution_plan
 
         self._do_builds = do_builds
+        self._build_lock = RLock()
         self.ui = ui
         self._include_faulty = include_faulty
         self.debug = debug
@@ -370,13 +371,16 @@ class Executor(object):
         return cmdline
 
     def _build_executor_and_suite(self, run_id: "RunId"):
-        name = "E:" + run_id.benchmark.suite.executor.name
-        build = run_id.benchmark.suite.executor.build
-        self._process_builds(build, run_id.benchmark.suite.executor.path, name, run_id)
+        # the threads of the parallel scheduler may need the same build at the same time:
+        # checking whether it was done and doing it is one step
+        with self._build_lock:
+            name = "E:" + run_id.benchmark.suite.executor.name
+            build = run_id.benchmark.suite.executor.build
+            self._process_builds(build, run_id.benchmark.suite.executor.path, name, run_id)
 
-        name = "S:" + run_id.benchmark.suite.name
-        build = run_id.benchmark.suite.build
-        self._process_builds(build, run_id.benchmark.suite.location, name, run_id)
+            name = "S:" + run_id.benchmark.suite.name
+            build = run_id.benchmark.suite.build
+            self._process_builds(build, run_id.benchmark.suite.location, name, run_id)
 
     def _process_builds(self, build: Optional[BuildCommand], location, name, run_id):
         if not build or build.is_built:
